@@ -90,6 +90,9 @@ var profCustody = &profile{name: "custody", arbitrary: 30, prelude: 60, w: map[s
 
 var G = nutils.GovernanceContractAddress
 
+// percentage of the valid-by-construction steps whose keys are passed in an alternative hex spelling
+const altSpellingPct = 8
+
 // tick advances block height and time before the next transaction.
 func (h *hist) tick(dh, dt uint32) {
 	h.n.Height += dh
@@ -168,10 +171,68 @@ func (h *hist) anyPub(label string) string {
 	case p < 82:
 		return h.w.nodes[h.g.n(label, len(h.w.nodes))].pub
 	case p < 90:
-		return strings.ToUpper(h.w.nodes[h.g.n(label, len(h.w.nodes))].pub)
+		alt, _ := h.respell(label+"Sp", h.w.nodes[h.g.n(label, len(h.w.nodes))].pub)
+		return alt
 	default:
 		return []string{"", "zz", "0102", "03" + strings.Repeat("ab", 32)}[h.g.n(label+"Bad", 4)]
 	}
+}
+
+// respell returns another hex spelling of the same key bytes: all upper-case, a single upper-case digit, or mixed
+// case. The second result is false when no other spelling exists (a key without any of the digits a-f).
+// hex.DecodeString accepts every such spelling, so a transaction may carry any of them; the reference model
+// identifies a peer by the decoded bytes (canon), whatever the spelling.
+func (h *hist) respell(label, pub string) (string, bool) {
+	low := canon(pub)
+	var letters []int
+	for i := 0; i < len(low); i++ {
+		if low[i] >= 'a' && low[i] <= 'f' {
+			letters = append(letters, i)
+		}
+	}
+	if len(letters) == 0 {
+		return pub, false
+	}
+	b := []byte(low)
+	style := "upper"
+	switch h.g.n(label+"Style", 4) {
+	case 2:
+		style = "oneDigit"
+		b[letters[h.g.n(label+"One", len(letters))]] -= 'a' - 'A'
+	case 3:
+		style = "mixed"
+		mask := 1 + h.g.n(label+"Mask", 0xffff)
+		for j, i := range letters {
+			if mask>>(uint(j)%16)&1 == 1 {
+				b[i] -= 'a' - 'A'
+			}
+		}
+	default:
+		b = []byte(strings.ToUpper(low))
+	}
+	out := string(b)
+	if out == low {
+		b[letters[0]] -= 'a' - 'A'
+		out = string(b)
+	}
+	if out == pub { // the state itself held a non-canonical spelling
+		out = low
+	}
+	h.ev.Class("spelling:" + style)
+	return out, true
+}
+
+// sp spells a key taken from the observed state for the call being built: as observed, or, while the step is
+// in alternative-spelling mode (h.alt, drawn per step in next), in another spelling of the same bytes.
+func (h *hist) sp(pub string) string {
+	if !h.alt {
+		return pub
+	}
+	out, ok := h.respell("sp", pub)
+	if ok {
+		h.altHit = true
+	}
+	return out
 }
 
 func (h *hist) anyPos(label string) uint32 {
@@ -330,6 +391,54 @@ func (h *hist) validAction(kind string) *action {
 				c = append(c, &w.nodes[i])
 			}
 		}
+		// A key that is already in the pool, offered again in another spelling of the same bytes. One peer whatever
+		// the spelling: per-peer storage (authorize records, attributes, penalty) is keyed by the decoded bytes, so
+		// the contract has to recognise the key (it canonicalises the hex string before the pool look-up) and refuse.
+		// Preferred targets are the peers on which somebody else holds a position, non-consensus candidates first:
+		// a second pool entry would share their authorize records while dividing by its own TotalPos.
+		var dup []*peerItem
+		for _, k := range s.poolKeys {
+			if !s.isBlack(k) {
+				dup = append(dup, s.pool[k])
+			}
+		}
+		dupPct := 22
+		switch {
+		case len(c) == 0:
+			dupPct = 100
+		case h.alt: // otherwise a key outside the pool in another spelling: accepted and stored in canonical spelling
+			dupPct = 50
+		}
+		if len(dup) > 0 && g.pct("regDup") < dupPct {
+			var staked, stakedCand []*peerItem
+			for _, p := range dup {
+				if s.othersStaked(p) {
+					staked = append(staked, p)
+					if p.status == stCandidate {
+						stakedCand = append(stakedCand, p)
+					}
+				}
+			}
+			switch r := g.pct("regDupGoal"); {
+			case r < 45 && len(stakedCand) > 0:
+				dup = stakedCand
+			case r < 75 && len(staked) > 0:
+				dup = staked
+			}
+			p := dup[g.n("regDupNode", len(dup))]
+			alt, ok := h.respell("regDupSp", p.pub)
+			owner := p.owner
+			if g.pct("regDupOwnerAlt") < 25 {
+				owner = w.authorizers[g.n("regDupOwner", len(w.authorizers))]
+			}
+			init := uint64(s.gp.MinInitStake) + g.of("regDupExtra", 0, 0, 1, 500, 5000, 40000)
+			if !ok || init > s.ont[owner] || init > math.MaxUint32 {
+				return nil
+			}
+			a := h.mkRegister(alt, owner, uint32(init), h.sigs(owner), true)
+			a.alt, a.dup, a.dupStaked = true, true, s.othersStaked(p)
+			return a
+		}
 		if len(c) == 0 {
 			return nil
 		}
@@ -351,7 +460,7 @@ func (h *hist) validAction(kind string) *action {
 		if init > s.ont[owner] || init > math.MaxUint32 {
 			return nil
 		}
-		return h.mkRegister(nd.pub, owner, uint32(init), h.sigs(owner), true)
+		return h.mkRegister(h.sp(nd.pub), owner, uint32(init), h.sigs(owner), true)
 
 	case "unRegisterCandidate": // only nodes in RegisterCandidateStatus qualify; on network id 3 there are none
 		var c []*peerItem
@@ -364,7 +473,7 @@ func (h *hist) validAction(kind string) *action {
 			return nil
 		}
 		p := c[g.n("unregNode", len(c))]
-		return h.mkPubOwner("unRegisterCandidate", gov.UNREGISTER_CANDIDATE, p.pub, p.owner, h.sigs(p.owner), true)
+		return h.mkPubOwner("unRegisterCandidate", gov.UNREGISTER_CANDIDATE, h.sp(p.pub), p.owner, h.sigs(p.owner), true)
 
 	case "quitNode":
 		if s.activeCount() <= int(s.cfg.K) {
@@ -377,7 +486,7 @@ func (h *hist) validAction(kind string) *action {
 			}
 		}
 		p := c[g.n("quitNode", len(c))]
-		return h.mkPubOwner("quitNode", gov.QUIT_NODE, p.pub, p.owner, h.sigs(p.owner), true)
+		return h.mkPubOwner("quitNode", gov.QUIT_NODE, h.sp(p.pub), p.owner, h.sigs(p.owner), true)
 
 	case "authorizeForPeer":
 		var c []pair
@@ -450,7 +559,7 @@ func (h *hist) validAction(kind string) *action {
 			if k*minPos > math.MaxUint32 {
 				return
 			}
-			pubs, pos = append(pubs, pub), append(pos, uint32(k*minPos))
+			pubs, pos = append(pubs, h.sp(pub)), append(pos, uint32(k*minPos))
 			used[pub] += k * minPos
 			budget -= k * minPos
 		}
@@ -536,7 +645,7 @@ func (h *hist) validAction(kind string) *action {
 		if pos > math.MaxUint32 {
 			return nil
 		}
-		return h.mkAuthorize("unAuthorizeForPeer", gov.UNAUTHORIZE_FOR_PEER, x.e.addr, []string{x.e.pub}, []uint32{uint32(pos)}, h.sigs(x.e.addr), true)
+		return h.mkAuthorize("unAuthorizeForPeer", gov.UNAUTHORIZE_FOR_PEER, x.e.addr, []string{h.sp(x.e.pub)}, []uint32{uint32(pos)}, h.sigs(x.e.addr), true)
 
 	case "withdraw":
 		var c []*authInfo
@@ -573,7 +682,7 @@ func (h *hist) validAction(kind string) *action {
 			}
 			return uint32(g.rng("wdAmt", 1, e.unfreeze))
 		}
-		pubs, amts := []string{e.pub}, []uint32{amt(e)}
+		pubs, amts := []string{h.sp(e.pub)}, []uint32{amt(e)}
 		if g.pct("wdMulti") < 25 {
 			var more []*authInfo
 			for _, o := range c {
@@ -583,7 +692,7 @@ func (h *hist) validAction(kind string) *action {
 			}
 			if len(more) > 0 {
 				o := more[g.n("wdSecond", len(more))]
-				pubs, amts = append(pubs, o.pub), append(amts, amt(o))
+				pubs, amts = append(pubs, h.sp(o.pub)), append(amts, amt(o))
 			}
 		}
 		return h.mkWithdraw(e.addr, pubs, amts, h.sigs(e.addr), true)
@@ -630,7 +739,7 @@ func (h *hist) validAction(kind string) *action {
 		if pos > s.ont[p.owner] {
 			pos = s.ont[p.owner]
 		}
-		return h.mkInitPos("addInitPos", gov.ADD_INIT_POS, p.pub, p.owner, uint32(pos), h.sigs(p.owner), true)
+		return h.mkInitPos("addInitPos", gov.ADD_INIT_POS, h.sp(p.pub), p.owner, uint32(pos), h.sigs(p.owner), true)
 
 	case "reduceInitPos":
 		type cand struct {
@@ -663,7 +772,7 @@ func (h *hist) validAction(kind string) *action {
 		if pos > math.MaxUint32 {
 			return nil
 		}
-		return h.mkInitPos("reduceInitPos", gov.REDUCE_INIT_POS, x.p.pub, x.p.owner, uint32(pos), h.sigs(x.p.owner), true)
+		return h.mkInitPos("reduceInitPos", gov.REDUCE_INIT_POS, h.sp(x.p.pub), x.p.owner, uint32(pos), h.sigs(x.p.owner), true)
 
 	case "setPeerCost", "setFeePercentage", "changeMaxAuthorization":
 		if len(s.poolKeys) == 0 {
@@ -691,15 +800,16 @@ func (h *hist) validAction(kind string) *action {
 			}
 		}
 		cost := func(l string) uint32 { return uint32(g.of(l, 0, 1, 10, 50, 90, 99, 100, g.rng(l+"R", 0, 100))) }
+		spelt := h.sp(p.pub)
 		switch kind {
 		case "setPeerCost":
-			q := &gov.SetPeerCostParam{PeerPubkey: p.pub, Address: p.owner, PeerCost: cost("peerCost")}
+			q := &gov.SetPeerCostParam{PeerPubkey: spelt, Address: p.owner, PeerCost: cost("peerCost")}
 			return h.mk(kind, gov.SET_PEER_COST, ser(func(s *common.ZeroCopySink) { q.Serialization(s) }), h.sigs(p.owner), true,
-				"%s,%s,%d", w.nodeName(p.pub), w.name(p.owner), q.PeerCost)
+				"%s,%s,%d", w.nodeName(spelt), w.name(p.owner), q.PeerCost)
 		case "setFeePercentage":
-			q := &gov.SetFeePercentageParam{PeerPubkey: p.pub, Address: p.owner, PeerCost: cost("peerCost"), StakeCost: cost("stakeCost")}
+			q := &gov.SetFeePercentageParam{PeerPubkey: spelt, Address: p.owner, PeerCost: cost("peerCost"), StakeCost: cost("stakeCost")}
 			return h.mk(kind, gov.SET_FEE_PERCENTAGE, ser(func(s *common.ZeroCopySink) { q.Serialization(s) }), h.sigs(p.owner), true,
-				"%s,%s,%d,%d", w.nodeName(p.pub), w.name(p.owner), q.PeerCost, q.StakeCost)
+				"%s,%s,%d,%d", w.nodeName(spelt), w.name(p.owner), q.PeerCost, q.StakeCost)
 		default:
 			limit := uint64(s.gp.PosLimit) * p.initPos
 			if limit > math.MaxUint32 {
@@ -709,7 +819,9 @@ func (h *hist) validAction(kind string) *action {
 			if v > limit {
 				v = limit
 			}
-			a := h.mkMaxAuth(p, uint32(v))
+			q := *p
+			q.pub = spelt
+			a := h.mkMaxAuth(&q, uint32(v))
 			a.signers = h.sigs(p.owner)
 			a.desc = a.desc[:strings.LastIndex(a.desc, "[")] + h.sigNames(a.signers)
 			return a
@@ -753,14 +865,14 @@ func (h *hist) validAction(kind string) *action {
 			c = staked
 		}
 		p := c[g.n("blackNode", len(c))]
-		pubs := []string{p.pub}
+		pubs := []string{h.sp(p.pub)}
 		if p.active() {
 			active--
 		}
 		if g.pct("blackTwo") < 15 {
 			q := c[g.n("blackSecond", len(c))]
 			if q.pub != p.pub && (!q.active() || active-1 >= int(s.cfg.K)) {
-				pubs = append(pubs, q.pub)
+				pubs = append(pubs, h.sp(q.pub))
 			}
 		}
 		return h.mkBlack(pubs, h.sigs(w.admin), true)
@@ -779,7 +891,7 @@ func (h *hist) validAction(kind string) *action {
 		if len(again) > 0 && g.pct("whiteAgain") < 80 {
 			bl = again
 		}
-		pub := bl[g.n("whiteNode", len(bl))]
+		pub := h.sp(bl[g.n("whiteNode", len(bl))])
 		q := &gov.WhiteNodeParam{PeerPubkey: pub}
 		a := h.mk(kind, gov.WHITE_NODE, ser(q.Serialization), h.sigs(w.admin), true, "%s", w.nodeName(pub))
 		a.mod = &modelOp{op: "white", pubs: lowerAll([]string{pub})} // no effect on the release model; coverage only
@@ -799,7 +911,7 @@ func (h *hist) validAction(kind string) *action {
 		if len(plain) > 0 && g.pct("penPlain") < 60 {
 			pk = plain
 		}
-		pub := pk[g.n("penNode", len(pk))]
+		pub := h.sp(pk[g.n("penNode", len(pk))])
 		q := &gov.TransferPenaltyParam{PeerPubkey: pub, Address: w.treasury}
 		return h.mk(kind, gov.TRANSFER_PENALTY, ser(q.Serialization), h.sigs(w.admin), true, "%s,%s", w.nodeName(pub), w.name(w.treasury))
 
@@ -1078,11 +1190,16 @@ func (h *hist) next() *action {
 	for _, k := range kinds {
 		total += wt[k]
 	}
+	// spelling mode of this step: every key the builder takes from the observed state is passed in another hex
+	// spelling of the same bytes (upper-case, one upper-case digit, mixed case)
+	h.alt, h.altHit = h.g.pct("altSpelling") < altSpellingPct, false
+	defer func() { h.alt = false }()
 	for try := 0; try < 10; try++ {
 		r := h.g.n("kind", total)
 		for _, k := range kinds {
 			if r < wt[k] {
 				if a := h.validAction(k); a != nil {
+					a.alt = a.alt || h.altHit
 					return a
 				}
 				break
@@ -1090,6 +1207,7 @@ func (h *hist) next() *action {
 			r -= wt[k]
 		}
 	}
+	h.alt = false
 	if a := h.validAction("commitDpos"); a != nil {
 		return a
 	}
